@@ -7,7 +7,10 @@ TRUSTED = ['Go stdlib: io.ReadFull, io.CopyN, bytes.Buffer, bytes.Reader, unicod
 ASSUMPTIONS = ['the reader is an in-memory byte stream (no I/O errors other than end of input)']
 RULE = ('all 256 initial bytes x follow bytes (all-zero / all-ff / boundary values / random) x content shorter, equal, longer than declared, '
         'through all five Decode* entry points; every (value, head size) pair around the head boundaries incl. non-shortest heads; '
-        'string lengths 2^63-1, 2^63, 2^64-1; valid/invalid UTF-8 content; random byte strings; compared: value, bytes consumed, ok/err')
+        'string lengths 2^63-1, 2^63, 2^64-1; valid/invalid UTF-8 content; random byte strings; compared: value, bytes consumed, ok/err; '
+        'cbor.dec.grow: one decoder whose reader receives more data after a failed call (every failure kind: input ending at every position inside a 1/2/4/8-byte '
+        'argument, wrong type, reserved ai, oversized length, short content, bad UTF-8) x every head width and kind decoded next; '
+        'cbor.rt.big: encoder -> decoder round trip of byte / text strings of 2^17+1 .. 2^25+1 bytes (2^20, 2^24 with both neighbours) and sizes in between, three reader kinds')
 EXHAUSTIVE = {'quick': 'all 256 initial bytes x 5 entry points x {no follow bytes, exact, truncated by 1}',
               'thorough': 'all 256 initial bytes x 5 entry points x {no follow bytes, exact, truncated by 1}'}
 OPS = ['cbor.dec.uint', 'cbor.dec.arr', 'cbor.dec.map', 'cbor.dec.bytes', 'cbor.dec.text']
@@ -19,6 +22,10 @@ def classify(op, m):
     t = op.split(' ')
     if t[0] in ('cbor.enc', 'cbor.enc.cont'):
         return f'{t[0]}:{m.split(" ")[0]}:{m.split(" ")[-1][:9]}'
+    if t[0] == 'cbor.dec.grow':
+        return f'{t[0]}:{t[1]}:{len(t) // 2 - 1}phases:{m.split("|")[0].split(" ")[0]}:{m.split("|")[-1].split(" ")[0]}'
+    if t[0] == 'cbor.rt.big':
+        return f'{t[0]}:{t[1]}:{t[3]}'
     if t[0] == 'cbor.dec.seq':
         return f'{t[0]}:{t[1]}:{m.split(" ")[0]}'
     first = t[1][:2] if t[1] != '-' else 'empty'
@@ -170,6 +177,65 @@ def generate(tier, rng):
         for c in 'ubtam':
             yield f'cbor.dec.seq {kind} {c} -'
             yield f'cbor.dec.seq {kind} {c}{c} {hexs(head(0, 5))}'
+    yield from grow_family(rng)
+
+
+def grow_family(rng):
+    """ONE decoder whose reader receives more data after a call has failed (a buffer being appended to, a connection after a timeout):
+    every way a call can fail x every head width and item kind decoded next. The failed call must leave nothing behind in the decoder:
+    the items that arrive afterwards decode to their RFC 8949 values and consume exactly their bytes (model: every phase is a fresh decode)."""
+    NF = {24: 1, 25: 2, 26: 4, 27: 8}
+    LET = {0: 'u', 2: 'b', 3: 't', 4: 'a', 5: 'm'}
+    fails = []                                         # (script, bytes) whose last call fails
+    # (1) the input ends inside the argument of a head: every width, every cut position, argument bytes non-zero / zero / mixed
+    for mt in (0, 2, 3, 4, 5):
+        for ai, k in NF.items():
+            for cut in range(k):
+                for arg in (b'\xff' * k, bytes(range(1, k + 1)), b'\x00' * k, b'\x80' + b'\x00' * (k - 1), b'\x00' * (k - 1) + b'\x01'):
+                    if mt != 0 and arg not in (b'\xff' * k, bytes(range(1, k + 1))): continue
+                    fails.append((LET[mt], bytes([mt * 32 + ai]) + arg[:cut]))
+    # (2) the head is complete but the call fails for another reason: wrong type (argument of every width read first), reserved /
+    # indefinite additional information, a length of 2^63 or more, content shorter than declared, invalid UTF-8, nothing there at all
+    for ai, k in NF.items():
+        fails.append(('u', bytes([2 * 32 + ai]) + b'\xff' * k))
+        fails.append(('b', bytes([0 * 32 + ai]) + bytes(range(1, k + 1))))
+        fails.append(('t', bytes([4 * 32 + ai]) + b'\xff' * k + b'zz'))
+        fails.append(('b', bytes([2 * 32 + ai]) + b'\x00' * (k - 1) + b'\x09' + b'short'))
+        fails.append(('t', bytes([3 * 32 + ai]) + (200 if k == 1 else 1000).to_bytes(k, 'big') + b'short'))
+    for ai in (28, 29, 30, 31):
+        fails.append(('u', bytes([ai]) + b'\xff' * 8))
+        fails.append(('b', bytes([2 * 32 + ai])))
+    fails += [('b', head(2, 2**63, 8) + b'abc'), ('t', head(3, 2**64 - 1, 8)), ('t', head(3, 2) + b'\xc3\x28'), ('t', head(3, 1, 4) + b'\xff'),
+              ('u', b''), ('b', b''), ('uu', head(0, 3)), ('ub', head(0, 2**32 + 5) + b'\x5a\x01\x02'), ('at', head(4, 70000) + b'\x7b\xaa\xbb\xcc\xdd\xee')]
+    fails = list(dict.fromkeys(fails))
+    # what arrives afterwards: one item per head width (0, 1, 2, 4, 8 follow bytes; shortest and non-shortest), every kind, and a run of them
+    nexts = []
+    for size, v in ((0, 5), (1, 5), (1, 0x20), (2, 0x102), (2, 3), (4, 0x01020304), (4, 7), (8, 0x0102030405060708), (8, 9)):
+        nexts.append(('u', head(0, v, size)))
+        nexts.append(('a' if size % 2 else 'm', head(4 if size % 2 else 5, v, size)))
+    for size in (0, 1, 2, 4, 8):
+        nexts.append(('b', head(2, 3, size) + b'abc'))
+        nexts.append(('t', head(3, 4, size) + b'\xc3\xa9ok'))
+    nexts.append(('ubtu', head(0, 5, 1) + head(2, 2, 2) + b'hi' + head(3, 2, 1) + b'yo' + head(0, 300)))
+    nexts.append(('b', head(2, 30, 1) + b'q' * 30 + b'rest'))
+    kinds = ('buffer', 'plain', 'one')
+    j = 0
+    for fs, fb in fails:
+        for ns, nb in nexts:
+            # every (failure, next item) pair through one reader kind in turn, the narrow-after-wide pairs through all of them
+            wide = len(fb) > 1 and len(nb) < 4
+            for kind in (kinds if wide else (kinds[j % 3],)):
+                yield f'cbor.dec.grow {kind} {fs} {hexs(fb)} {ns} {hexs(nb)}'
+            j += 1
+    # longer histories: good items before the failure, two failures of different widths in a row, a failure between two good phases
+    pre = ('ub', head(0, 1000) + head(2, 2) + b'ok')
+    for i, (fs, fb) in enumerate(fails):
+        ns, nb = nexts[i % len(nexts)]
+        fs2, fb2 = fails[(i * 7 + 3) % len(fails)]
+        kind = kinds[i % 3]
+        yield f'cbor.dec.grow {kind} {pre[0] + fs} {hexs(pre[1] + fb)} {ns} {hexs(nb)}'
+        yield f'cbor.dec.grow {kind} {fs} {hexs(fb)} {fs2} {hexs(fb2)} {ns} {hexs(nb)}'
+        yield f'cbor.dec.grow {kind} {ns} {hexs(nb)} {fs} {hexs(fb)} {ns} {hexs(nb)} u {hexs(head(0, 24))}'
 
 
 
@@ -212,4 +278,27 @@ def run(ctx):
         top = len(seq) + sum(t.count(' u') for t in seq if t.startswith('a2'))      # 'a2 u1 u2' = three top-level calls
         cont.append((f'cbor.enc.cont {top} ' + ' '.join(seq), script))
     g2, m2 = ctx.both([c for c, sc in cont])
+    big_round_trip(ctx)
     ctx.both([f'cbor.dec.seq bytes {sc} {x.split(" ")[1]}' for (c, sc), x in zip(cont, g2) if sc and x and x.startswith('ok ') and x.split(' ')[1] != '-'])
+
+
+def big_round_trip(ctx):
+    """the statement's first clause for LONG strings ("for every value in range": nothing in the format or the encoder bounds a string,
+    the bundle reader decodes every response body with DecodeByteString): the real encoder's output for strings of 2^k + 1 bytes
+    (k = 17 .. 25), 2^k - 1 and 2^k for k = 20, 24, and some sizes in between goes through the real decoder (also behind a non-shortest
+    8-byte head), which must return the value and consume exactly the item (theorems C12.roundtrip_*, decodeBytes_complete; real code
+    only, the values are too long for op lines)"""
+    from concurrent.futures import ThreadPoolExecutor
+    sizes = sorted(set([2**k + 1 for k in range(17, 26)] + near([2**20, 2**24], 1, 0, 2**40) + [10**7, 2**24 + 4096, 20 * 2**20]))
+    if ctx.tier == 'thorough':
+        sizes += near([2**k for k in range(17, 26)], 1, 0, 2**40) + [2**25 + 2**24 + 7, 2**26 + 1, 2**27, 2**27 + 1]
+        sizes = sorted(set(sizes))
+    kinds = ('bytes', 'buffer', 'plain')
+    ops = [f'cbor.rt.big {c} {n} {kinds[(i + j) % 3]}' for i, n in enumerate(sizes) for j, c in enumerate('bt')]
+    nchunk = 6          # (a batch of fewer than 200 ops runs in one harness process: split by hand, large and small sizes mixed)
+    chunks = [ops[k::nchunk] for k in range(nchunk)]
+    with ThreadPoolExecutor(nchunk) as tp:
+        results = list(tp.map(ctx.go, chunks))
+    for ch, rs in zip(chunks, results):
+        for op, r in zip(ch, rs):
+            ctx.records.append((op, r or 'crash', 'same'))
